@@ -9,7 +9,7 @@ from ._common import shrink
 @jitted(
     "Tuple((f8[:, :], i4))(f8[:], f8[:], f8[:], f8[:, :, :], f8[:, :, :], f8[:, :, :], f8, f8, f8, f8, f8, f8, f8, i4, b1)"
 )
-def _ray3d(
+def _ray3d_core(
     z,
     x,
     y,
@@ -26,12 +26,18 @@ def _ray3d(
     max_step,
     honor_grid,
 ):
-    """Perform a posteriori 3D ray-tracing."""
+    """
+    Perform a posteriori 3D ray-tracing.
+
+    Instead of raising, return a negative count: -1 if the end point is out of
+    bound, -2 if the maximum number of steps is reached.
+
+    """
     condz = z[0] <= zend <= z[-1]
     condx = x[0] <= xend <= x[-1]
     condy = y[0] <= yend <= y[-1]
     if not (condz and condx and condy):
-        raise ValueError("end point out of bound")
+        return np.empty((max_step, 3), dtype=np.float64), -1
 
     if honor_grid:
         nz, nx, ny = len(z), len(x), len(y)
@@ -113,12 +119,60 @@ def _ray3d(
             count += 1
 
         if count >= max_step:
-            raise RuntimeError("maximum number of steps reached")
+            break
 
     if count >= max_step:
-        raise RuntimeError("maximum number of steps reached")
+        return ray, -2
 
     ray[count] = np.array([zsrc, xsrc, ysrc], dtype=np.float64)
+
+    return ray, count
+
+
+@jitted(
+    "Tuple((f8[:, :], i4))(f8[:], f8[:], f8[:], f8[:, :, :], f8[:, :, :], f8[:, :, :], f8, f8, f8, f8, f8, f8, f8, i4, b1)"
+)
+def _ray3d(
+    z,
+    x,
+    y,
+    zgrad,
+    xgrad,
+    ygrad,
+    zend,
+    xend,
+    yend,
+    zsrc,
+    xsrc,
+    ysrc,
+    stepsize,
+    max_step,
+    honor_grid,
+):
+    """Perform a posteriori 3D ray-tracing."""
+    ray, count = _ray3d_core(
+        z,
+        x,
+        y,
+        zgrad,
+        xgrad,
+        ygrad,
+        zend,
+        xend,
+        yend,
+        zsrc,
+        xsrc,
+        ysrc,
+        stepsize,
+        max_step,
+        honor_grid,
+    )
+
+    if count == -1:
+        raise ValueError("end point out of bound")
+
+    if count == -2:
+        raise RuntimeError("maximum number of steps reached")
 
     return ray, count
 
@@ -146,7 +200,7 @@ def _ray3d_vectorized(
     rays = np.empty((n, max_step, 3), dtype=np.float64)
     counts = np.empty(n, dtype=np.int32)
     for i in prange(n):
-        rays[i], counts[i] = _ray3d(
+        rays[i], counts[i] = _ray3d_core(
             z,
             x,
             y,
@@ -163,6 +217,14 @@ def _ray3d_vectorized(
             max_step,
             honor_grid,
         )
+
+    # Exceptions cannot be raised from within a parallel loop
+    for i in range(n):
+        if counts[i] == -1:
+            raise ValueError("end point out of bound")
+
+        if counts[i] == -2:
+            raise RuntimeError("maximum number of steps reached")
 
     return rays, counts
 
